@@ -1,4 +1,5 @@
 import VirVerif.Drv.Hier
+import VirVerif.Model.Cond
 namespace VirVerif.Drv
 open VirVerif
 
@@ -20,6 +21,16 @@ def handleC08 : Handler := fun st toks =>
         f i (some (fOfTok (rest'.getD (2*j+1) "0"))) (fOfTok (rest'.getD (2*j) "0"))
       if vals.any Float.isNaN then some "ERR nan-or-missingTable" else some ("OK " ++ floatsOut vals)
     | _ => some "ERR parse"
+  | "bind" :: n :: rest =>
+    -- bind <n> names… <k> bound…  → OK (name pos<k>|dep)* | ERR multipleValues
+    let n := n.toNat!
+    let names := rest.take n
+    let bound := (rest.drop (n + 1))
+    match bindCall names bound with
+    | .ok r => some ("OK " ++ " ".intercalate (r.map fun (nm, src) => match src with
+        | .positional k => s!"{nm}=pos{k}"
+        | .boundDep => s!"{nm}=dep"))
+    | .error e => some ("ERR " ++ e)
   | _ => none
 
 end VirVerif.Drv
